@@ -759,7 +759,7 @@ impl Property for C11 {
                         // nothing that ran since has touched it
                         let Out::Vars(got) = out else { continue };
                         for (n, _ty, val) in frozen {
-                            if e.steps[*from..k_next].iter().any(|s| mentions(&s.src, n)) {
+                            if e.steps[*from..k_next].iter().any(|s| rebinds(&s.src, n)) {
                                 continue;
                             }
                             match got.iter().find(|t| t.0 == *n) {
@@ -826,6 +826,22 @@ impl Property for C11 {
         }
         v
     }
+}
+
+/// does the step `src` bind `name` anew (`name = ..`, `[.., name, ..] = ..`, `(.., name, ..) = ..`)?
+fn rebinds(src: &str, name: &str) -> bool {
+    if src.starts_with(&format!("{name} = ")) {
+        return true;
+    }
+    for (open, close) in [('[', "] = "), ('(', ") = ")] {
+        if src.starts_with(open)
+            && let Some(p) = src.find(close)
+            && mentions(&src[..p], name)
+        {
+            return true;
+        }
+    }
+    false
 }
 
 /// does `src` mention the identifier `name` as a whole word?
